@@ -58,6 +58,10 @@ up)
   ip netns exec $(ns 0) sysctl -qw net.ipv4.icmp_ratelimit=0
   # a black hole behind the last router: 10.<100+N>.0.77 is routed up to rN and dropped there without any answer
   ip -n $(ns $N) route add blackhole 10.$((100+N)).0.77/32
+  # a rejecting firewall: router $LAB_REJECT refuses to forward UDP and says so (port unreachable, the default of -j REJECT)
+  if [ -n "${LAB_REJECT:-}" ] && [ "${LAB_REJECT}" != "0" ]; then
+    ip netns exec $(ns $LAB_REJECT) iptables -A FORWARD -p udp -j REJECT
+  fi
   # silent routers: forward, but never originate ICMP errors
   for s in "$@"; do
     ip netns exec $(ns $s) ip6tables -A OUTPUT -p icmpv6 --icmpv6-type time-exceeded -j DROP 2>/dev/null || true
